@@ -601,7 +601,7 @@ def est_program(draw, tier):
         steps.append({
             "tomo": which,
             "datadesc": draw(tomo.data_for(ns, no, kinds=("fewshot", "far"))),
-            "weight": draw(st.sampled_from(["identity", "custom"])),
+            "weight": draw(st.sampled_from(["identity", "custom", "inverse_sample_covariance", "inverse_unbiased_covariance"])),
             "wraw": draw(gen.raw(ns * no)),
             "order": draw(st.sampled_from(["eq_ineq", "ineq_eq"])),
             "constraints": draw(st.sampled_from([[True, True], [True, True], [True, False]])),
@@ -615,8 +615,10 @@ def _loss_option(name, weight, wraw, sizes):
 
     loss, opt = c10.make_loss(name, 4)
     cls = type(opt)
-    if weight == "identity":
+    if weight == "identity" or (weight.startswith("inverse") and not name.startswith("se")):
         return cls("identity")
+    if weight.startswith("inverse"):
+        return cls(weight)  # weights derived from each dataset
     if name.startswith("se"):
         mats, i = [], 0
         for s in sizes:
@@ -641,6 +643,7 @@ def check_est_program(case, ctx):
     algo_shared, _ = c10.make_algo(case["algo"])
     prev = None
     differing = False
+    singles, last_opts = {}, {}
     for k, stp in enumerate(case["steps"]):
         qt, info, exact = tomos[stp["tomo"]]
         empi = tomo.make_empi(stp["datadesc"], exact)
@@ -654,8 +657,8 @@ def check_est_program(case, ctx):
             try:
                 r = LossMinimizationEstimator().calc_estimate(qt, empi, loss, lopt, algo, aopt)
                 return np.asarray(r.estimated_var, dtype=float)
-            except ValueError as e:  # C10-F1 (scale-dependent imaginary truncation) aborts both alike
-                return "ValueError"
+            except (ValueError, np.linalg.LinAlgError, ZeroDivisionError, FloatingPointError) as e:  # aborts both alike
+                return type(e).__name__
 
         used = run(loss_shared, algo_shared)
         loss_f, _ = c10.make_loss(case["loss"], qt.num_variables)
@@ -671,6 +674,36 @@ def check_est_program(case, ctx):
             continue
         ctx.close(used, fresh, 1e-12 * (1 + float(np.max(np.abs(fresh)))), "reused_objects_equal_fresh",
                   f"step {k} of {len(case['steps'])}: tomo={stp['tomo']} weight={stp['weight']} order={stp['order']} constraints={stp['constraints']}")
+        singles.setdefault(stp["tomo"], []).append((empi, fresh))
+        last_opts[stp["tomo"]] = (lopt, aopt, stp)
+
+    # one calc_estimate_sequence call over the datasets of one tomography (re-used loss / algorithm objects, the options of
+    # its last step): element k is the estimate of dataset k alone
+    for key, (lopt, aopt, stp) in sorted(last_opts.items()):
+        qt = tomos[key][0]
+        data = [e for e, _ in singles[key]]
+        if len(data) < 2:
+            continue
+        ctx.label("sequence:" + stp["weight"])
+        alone = []
+        for e in data:
+            lf, _ = c10.make_loss(case["loss"], qt.num_variables)
+            af, _ = c10.make_algo(case["algo"])
+            try:
+                alone.append(np.asarray(LossMinimizationEstimator().calc_estimate(qt, e, lf, lopt, af, aopt).estimated_var, dtype=float))
+            except (ValueError, np.linalg.LinAlgError, ZeroDivisionError, FloatingPointError) as ex:
+                alone.append(type(ex).__name__)
+        if any(isinstance(a, str) for a in alone):
+            continue
+        try:
+            seq = LossMinimizationEstimator().calc_estimate_sequence(qt, data, loss_shared, lopt, algo_shared, aopt).estimated_var_sequence
+        except (ValueError, np.linalg.LinAlgError, ZeroDivisionError, FloatingPointError) as ex:
+            ctx.check(False, "sequence_equals_each_dataset_alone:exception", f"{type(ex).__name__}: {ex}")
+            continue
+        if ctx.check(len(seq) == len(alone), "sequence_equals_each_dataset_alone:len", f"{len(seq)} vs {len(alone)}"):
+            for k, (a, b) in enumerate(zip(seq, alone)):
+                ctx.close(np.asarray(a, dtype=float), b, 1e-12 * (1 + float(np.max(np.abs(b)))), "sequence_equals_each_dataset_alone",
+                          f"element {k} of {len(alone)}: tomo={key} weight={stp['weight']}")
     ctx.nontrivial(differing)
 
 
